@@ -18,7 +18,7 @@ def Tx.sackDoneBytes (t : Tx) (cum : Int) : Nat := (ackLoop cum t.flight 0 0 t.s
 
 def Tx.gapLimit (t : Tx) (cum : Int) : Nat :=
   match t.sentQ.getLast? with
-  | some l => ((l.tsn - cum) % 4294967296).toNat
+  | some l => if uint32_gt l.tsn cum then ((l.tsn - cum) % 4294967296).toNat else 0
   | none => 0
 
 /-- state after the HTNA loop -/
